@@ -912,7 +912,7 @@ class AccessoryDriver:
             set_result = HAP_SERVER_STATUS.INVALID_VALUE_IN_REQUEST
             set_result_value = None
 
-            if value is not None:
+            if value is not None and not expired:
                 set_result, set_result_value = _wrap_char_setter(
                     char, value, client_addr
                 )
@@ -923,6 +923,9 @@ class AccessoryDriver:
                 result = {HAP_REPR_STATUS: set_result}
 
             results[aid][iid] = result
+            if expired:
+                # A timed write without a live prepare must not reach any callback
+                continue
             char_to_iid[char] = iid
             service = char.service
             updates_by_accessories_services[acc][service][char] = value
